@@ -115,7 +115,7 @@ class ParticleReleaser(Iterator[pd.DataFrame]):
         # Avoid simulations without particles
         # Cold start and no particle released in the simulation period
         if self._df["mult"].sum() <= 0 and not warm_start_file:
-            logger.critical("All particles released before simulation start")
+            logger.critical("No particles released in the simulation period")
             raise SystemExit(3)
 
         # Add a release_time column if requested by the datatypes
